@@ -67,10 +67,11 @@ class Inst:
 
 
 class FillC:
-    __slots__ = ("name", "body", "env", "owner", "data_alias", "default_alias", "between", "ck", "tag_depth", "only")
+    __slots__ = ("name", "body", "env", "owner", "data_alias", "default_alias", "between", "ck", "tag_depth", "only",
+                 "implicit")
 
     def __init__(self, name, body, env, owner, data_alias=None, default_alias=None, between=(), ck=None,
-                 tag_depth=0, only=False):
+                 tag_depth=0, only=False, implicit=False):
         self.name = name
         self.body = body
         self.env = env
@@ -81,6 +82,7 @@ class FillC:
         self.ck = ck
         self.tag_depth = tag_depth
         self.only = only
+        self.implicit = implicit  # the whole component body taken as the default fill (no {% fill %} tag)
 
 
 class DefaultRef:
@@ -368,7 +370,7 @@ class Model:
             blank = all(n[0] == "text" and not n[1].strip() for n in body)
             if blank:
                 return {}
-            return {"default": FillC("default", body, env, owner, ck=ck, tag_depth=tag_depth, only=only)}
+            return {"default": FillC("default", body, env, owner, ck=ck, tag_depth=tag_depth, only=only, implicit=True)}
         if "".join(text).strip():
             raise ModelError("TemplateSyntaxError", "text beside fills")
         fills = {}
@@ -412,7 +414,7 @@ class Model:
             for _, d in between:
                 extra.update(d)
             for tag, d in f.env.layers:
-                if tag == "loop":
+                if tag == "loop" and not f.implicit:  # (a body taken as the implicit default fill captures nothing)
                     extra.update(d)
             if self.mode == "isolated" or f.only:
                 layers = list(f.env.layers[:f.tag_depth])
